@@ -547,3 +547,145 @@ TECHNIQUE.update({
     'C17': 'static analysis: pipeline shape + finite decision table by literal folding (nullflow/predtable)',
     'C20': 'static analysis: provenance of exposed ids vs. role table; exception flow of inspect() (nullflow)',
 })
+
+
+def prop_C08(repo, tier):
+    from . import rules_shape, schema as sch
+    res = CheckResult('C08', tier)
+    res.rules = {k: RULES[k] for k in ('CLASSIFY-TOTAL', 'NO-ELEM-BOOL')}
+    res.rules['READS-ONLY-MESSAGE-ELEMENT'] = 'classification reads only: presence of a table tag under the root, the operation attribute, presence of itemID under element_target/element_source - by direct-child lookups'
+    res.rules['CLASS-SET'] = 'the classes classification can return are exactly the documented concrete classes'
+    prog = program(repo)
+    allowed_reads = {('#root', t, 'direct') for t in sch.DOCUMENTED_TAGS} | {('roElementAction', 'element_target', 'direct'),
+                                                                            ('roElementAction', 'element_source', 'direct')}
+    expected = (set(sch.DOCUMENTED_TAGS.values()) - {'ElementAction'}) | set(sch.EA_TABLE.values())
+    for r in null_one(res, repo, 'classify'):
+        entry = 'MosFile.' + r['name']
+        res.add('CLASSIFY-TOTAL', entry, 'classification of any well-formed document', True)
+        for f in r['findings']:
+            res.add(f['rule'], f['func'], f['construct'], False, f['detail'], f['file'], f['line'], f['witness'])
+        reads = {tuple(x) for x in r['reads'].get(entry, [])}
+        extra = sorted(reads - allowed_reads)
+        res.add('READS-ONLY-MESSAGE-ELEMENT', entry, 'elements consulted while classifying', not extra,
+                '' if not extra else f'classification also depends on {extra}')
+        got = set(r.get('classes', []))
+        res.add('CLASS-SET', entry, 'set of classes returned', got == expected,
+                '' if got == expected else f'missing {sorted(expected - got)}, unexpected {sorted(got - expected)}')
+    elem_bool = [f for r in collect_null(res, repo, ('inspect', 'accessors', 'msgaccessors')) for f in r['findings'] if f['rule'] == 'NO-ELEM-BOOL']
+    for cname, r in collect_merge(res, repo).items():
+        elem_bool += [f for f in r['findings'] if f['rule'] == 'NO-ELEM-BOOL']
+    for f in elem_bool:
+        res.add('NO-ELEM-BOOL', f['func'], f['construct'], False, f['detail'], f['file'], f['line'], f['witness'])
+    res.add('NO-ELEM-BOOL', 'package', 'every condition evaluated on an Element value in the analysed slices', not elem_bool)
+    rules_shape.tag_table(res, prog, sch)
+    rules_shape.ea_table(res, prog, sch)
+    rules_shape.ctor_siblings(res, prog)
+    res.floors = {'CLASSIFY-TOTAL': 3, 'TAG-TABLE': 16, 'EA-TABLE': 10, 'CTOR-SIBLINGS': 2}
+    res.explanation = (
+        'Static analysis: (1) CLASSIFY-TOTAL - exception-flow interpretation of from_string/from_file/from_s3 -> _classify -> '
+        'ElementAction._classify -> constructor over every presence combination of children (no schema assumption): only MosInvalidXML / '
+        'UnknownMosFileType (and OSError for a path) can escape; (2) NO-ELEM-BOOL - no Element in a boolean context (child-count '
+        'dependence and DeprecationWarning under -W error); (3) READS-ONLY-MESSAGE-ELEMENT and CLASS-SET from the same interpretation; '
+        '(4) TAG-TABLE / EA-TABLE - the two dispatch tables equal the documented tables and agree with each class\'s base_tag_name; '
+        '(5) CTOR-SIBLINGS. NOT decided: ElementTree\'s str/bytes equivalence.')
+    res.assumptions = ['ElementTree.fromstring/parse raise only ParseError (and OSError for parse(path)) and accept str and bytes alike']
+    res.trusted_base = TRUSTED
+    return res
+
+
+def prop_C07(repo, tier):
+    from . import rules_shape
+    res = CheckResult('C07', tier)
+    res.rules = {'GUARD-DOM': 'when the completion marker is present RunningOrder.__add__ raises MosCompletedMergeError with no effect at all, for every message class',
+                 'MARKER-AGREE': 'the marker RunningOrderEnd.merge writes under the root is the one __add__ and RunningOrder.completed read; after merging a roDelete completed is True',
+                 'NEVER-COMPLETED': 'after any other merge RunningOrder.completed is still False',
+                 'END-FRAME': 'RunningOrderEnd.merge only appends the marker (holding the roDelete) to the root: nothing under the running-order element is touched',
+                 'DIRECT-CHILD': 'classification probes direct children only, so the roDelete nested in the marker cannot reclassify a written-out completed running order'}
+    prog = program(repo)
+    results = collect_merge(res, repo)
+    guard = sorted({t for r in results.values() for t in r.get('guard_tags', [])})
+    if len(guard) != 1:
+        res.error(f'GUARD-DOM: expected exactly one completion-marker probe on the root in RunningOrder.__add__, found {guard}')
+    marker = guard[0] if guard else None
+    for cname, r in results.items():
+        present = [o for o in r['outcomes'] if o.get('guard_present')]
+        ok = bool(present) and all(o['result'] == 'raise MosCompletedMergeError' and not o['effects'] and not o['mutated'] for o in present)
+        res.add('GUARD-DOM', 'RunningOrder.__add__', f'completed running order + {cname}', ok,
+                '' if ok else f'with the marker present the outcomes are {[(o["result"], o["effects"]) for o in present]}')
+        absent_ret = [o for o in r['outcomes'] if not o.get('guard_present') and o['result'] == 'return']
+        if cname == 'RunningOrderEnd':
+            ok = bool(absent_ret) and all(o.get('completed_after') == ['True'] for o in absent_ret)
+            res.add('MARKER-AGREE', 'RunningOrderEnd.merge', 'RunningOrder.completed after merging a roDelete', ok,
+                    '' if ok else f'completed evaluates to {[o.get("completed_after") for o in absent_ret]} after the merge')
+            ops = {tuple(map(tuple, o['rootops'])) for o in absent_ret}
+            ok = ops == {(('append', marker, 'NEW'),)}
+            res.add('END-FRAME', 'RunningOrderEnd.merge', 'operations on the root', ok, '' if ok else f'root operations: {sorted(ops)}')
+        else:
+            ok = all(o.get('completed_after') == ['False'] for o in absent_ret)
+            res.add('NEVER-COMPLETED', f'{cname}.merge', 'RunningOrder.completed after the merge', ok,
+                    '' if ok else f'completed evaluates to {[o.get("completed_after") for o in absent_ret]}')
+    add_findings(res, {c: r for c, r in results.items() if c == 'RunningOrderEnd'}, {'FRAME'}, as_rule=lambda f: 'END-FRAME')
+    for r in null_one(res, repo, 'classify'):
+        entry = 'MosFile.' + r['name']
+        bad = [x for x in r['reads'].get(entry, []) if x[2] != 'direct']
+        res.add('DIRECT-CHILD', entry, 'child lookups made while classifying', not bad, '' if not bad else f'descendant / path searches: {bad}')
+    rules_shape.no_bypass(res, prog)
+    if marker:
+        rules_shape.marker_writers(res, prog, marker)
+    rules_shape.detect_completed(res, prog)
+    res.floors = {'GUARD-DOM': 24, 'NEVER-COMPLETED': 23, 'MARKER-AGREE': 1, 'END-FRAME': 1, 'NO-BYPASS': 1}
+    res.explanation = (
+        'Static analysis: RunningOrder.__add__ is interpreted for each of the 24 message classes with the completion marker present '
+        'and absent: marker present => MosCompletedMergeError and an empty effect trace (GUARD-DOM); the post-state of a roDelete merge '
+        'makes RunningOrder.completed evaluate to True and every other merge leaves it False (MARKER-AGREE / NEVER-COMPLETED, decided by '
+        'evaluating the property on the abstract post-state); RunningOrderEnd only appends the marker under the root (END-FRAME); merge '
+        'is never called except through __add__ (NO-BYPASS); the marker literal has one writer (MARKER-WRITER); classification looks at '
+        'direct children only (DIRECT-CHILD); the CLI prints (completed) on the completed branch. NOT decided: that ElementTree\'s '
+        'write/parse round trip preserves the marker (library behaviour).')
+    res.assumptions = ASSUME
+    res.trusted_base = TRUSTED
+    return res
+
+
+def prop_C14(repo, tier):
+    from . import rules_shape
+    res = CheckResult('C14', tier)
+    res.rules = {'ROOT-WRITERS': 'the only effects on the root are: roReplace removes the roCreate and inserts its re-tagged deep copy at the same slot; roDelete appends one marker',
+                 'ENVELOPE-UNTOUCHED': 'no merge mutates or stores into messageID / mosID / ncsID (root children other than the running-order element)',
+                 'SERIALIZER': 'str() of a MOS object is ElementTree.tostring(self.xml, encoding="unicode") and nothing else in the package builds XML text'}
+    prog = program(repo)
+    results = collect_merge(res, repo)
+    for cname, r in results.items():
+        kind = schema.ROLES[cname][0]
+        ops = {tuple(map(tuple, o['rootops'])) for o in r['outcomes'] if o['result'] == 'return' and not o.get('guard_present')}
+        if kind == 'ROREPLACE':
+            ok = ops == {(('remove', 'roCreate', 'RO'), ('insert', 'roCreate', 'COPY'))}
+        elif kind == 'END':
+            ok = len(ops) == 1 and all(len(x) == 1 and x[0][0] == 'append' and x[0][2] == 'NEW' for x in ops)
+        else:
+            ok = ops <= {()}
+        res.add('ROOT-WRITERS', f'{cname}.merge', 'operations on the root element', ok, '' if ok else f'root operations on normal return: {sorted(ops)}')
+        res.add('ENVELOPE-UNTOUCHED', f'{cname}.merge', 'effects on envelope children', True)
+    add_findings(res, results, {'FRAME', 'IDX-DOMAIN', 'IDX-FRESH'}, want=lambda c, f: schema.ROLES[c][0] in ('ROREPLACE', 'END'),
+                 as_rule=lambda f: 'ROOT-WRITERS')
+    add_findings(res, results, {'FRAME'}, want=lambda c, f: 'ro.xml)' in f['detail'] or "parent=ro.xml" in f['detail'], as_rule=lambda f: 'ENVELOPE-UNTOUCHED')
+    rules_shape.serializer(res, prog)
+    res.floors = {'ROOT-WRITERS': 24, 'SERIALIZER': 2}
+    res.explanation = (
+        'ENVELOPE CLAUSE ONLY. Decided statically: which effects any merge can have on the root element (exactly one running-order '
+        'element: roReplace = one out / re-tagged deep copy in at the same slot; at most one completion record: roDelete appends one '
+        'marker and the completion guard of C07 forbids later merges), that messageID/mosID/ncsID are never operands of an effect, and '
+        'that the only serializer is ElementTree.tostring(self.xml, encoding="unicode"). NOT decided: sentence 1 of the property - that '
+        'the serialisation is well-formed and reads back to an identical running order with special characters intact - is behaviour of '
+        'ElementTree.tostring/fromstring on runtime strings and is outside this technique.')
+    res.assumptions = ASSUME
+    res.trusted_base = TRUSTED
+    return res
+
+
+PROPS.update({'C08': prop_C08, 'C07': prop_C07, 'C14': prop_C14})
+TECHNIQUE.update({
+    'C08': 'static analysis: exception-flow interpretation of classification + table agreement checks (nullflow/tables)',
+    'C07': 'static analysis: interpretation of the completion guard for all message classes + who-may-call/who-may-write rules',
+    'C14': 'static analysis: effect analysis of root-level writers + single-serializer rule (envelope clause only)',
+})
